@@ -1386,7 +1386,7 @@ def compile_pattern(compiler, pattern):
             value,
             value=compiler.compile(value).expr,
         )
-    elif value == Symbol("_"):
+    elif isinstance(value, Symbol) and mangle(value) == "_":
         return asty.MatchAs(value)
     elif isinstance(value, Symbol):
         return compiler.scope.assign(asty.MatchAs(value, name=mangle(value)))
@@ -1410,7 +1410,7 @@ def compile_pattern(compiler, pattern):
         ]
         return asty.MatchSequence(value, patterns=patterns)
     elif is_unpack("iterable", value):
-        if value[1] == Symbol("_"):
+        if mangle(value[1]) == "_":
             return asty.MatchStar(value, name=None)
         return compiler.scope.assign(asty.MatchStar(value, name=mangle(value[1])))
 
